@@ -24,6 +24,22 @@ def run_check(pid, tier, seed, repo=None, quiet=False):
         mod = load_check(pid)
         ctx = Ctx(repo=repo, tier=tier, seed=seed)
         res = mod.run(ctx)
+        if tier == "thorough":
+            # second pass over the name-based conservative call graph (every attribute call dispatches to every
+            # method of that name).  It over-approximates so much that "not reachable" rules meet spurious paths;
+            # what only this pass reports is listed as unproven, never alarmed.
+            have = {(f.rule, f.key) for f in res.findings} | {(u["rule"], u["construct"]) for u in res.unproven}
+            try:
+                ctx2 = Ctx(repo=repo, tier=tier, seed=seed, conservative=True)
+                ctx2._p = ctx._p
+                ctx2._rt = ctx._rt
+                res2 = mod.run(ctx2)
+                extra = [f for f in res2.findings if (f.rule, f.key) not in have]
+                for f in extra:
+                    res.unknown(f.rule, f.key, "reported only under the name-based conservative call graph (dispatch by method name alone): " + f.message[:200])
+                res.extra["conservative_pass"] = {"extra_reports": len(extra), "callgraph": dict(ctx2.callgraph().stats)}
+            except AnalysisError as e:
+                res.extra["conservative_pass"] = {"analysis_error": str(e)}
         files = {"count": len(ctx.program.modules), "tree_digest": ctx.program.digest()}
         cgs = None
         if ctx._cg:
